@@ -222,4 +222,101 @@ def convFails (e : BEnv) (var : VarCore) (s : Str) (nsmap : NsMap) (types : Opti
   if var.tokens then ((pySplitWs e.py s).mapM (fun t => deserialize e t types nsmap)).isNone
   else (deserialize e s types nsmap).isNone
 
+/-! ### injection at depth -/
+
+/-- `ks'` is `ks` with one element named `uq` (any content) inserted somewhere below an
+element bound by `m` (entered with node state `st`, under wrapper `w`): directly among the
+children when `uq` is unknown for `m`, or deeper — inside a child that the parser binds
+with an `ElementNode`, or inside one of `m`'s wrapper elements. -/
+inductive InjectedKids (e : BEnv) (Γ : Ctx) (cfg : ParserConfig) (uq : QN) :
+    XmlMeta → ElState → Option QN → List Tree → List Tree → Bool → Prop
+  | here {m : XmlMeta} (hq : unknownFor m uq = true) (st : ElState) (w : Option QN)
+      (a : List (QN × Str)) (n : NsMap) (t : Option Str) (c : List Tree) (tl : Option Str)
+      (pre post : List Tree) :
+      InjectedKids e Γ cfg uq m st w (pre ++ post) (pre ++ .node uq a n t c tl :: post)
+        (parseKids e Γ cfg m st w pre).isOk
+  | inChild {m m' : XmlMeta} {st st1 st' : ElState} {w : Option QN} {o1 : Out}
+      {pre : List Tree} (post : List Tree)
+      {cq : QN} {ca ea : List (QN × Str)} {cn en : NsMap} (ct ctl : Option Str) {cc cc' : List Tree}
+      {d : Bool} {xt : Option QN} {xn : Option Bool}
+      (hpre : parseKids e Γ cfg m st w pre = .ok (o1, st1))
+      (hw : (w.isNone && m.wrappers.any (·.1 = cq)) = false)
+      (hchild : childNode e Γ cfg m st1 cq ca cn w = .ok (.element m' ea en d xt xn, st'))
+      {b : Bool} (hrec : InjectedKids e Γ cfg uq m' {} none cc cc' b) :
+      InjectedKids e Γ cfg uq m st w (pre ++ .node cq ca cn ct cc ctl :: post)
+        (pre ++ .node cq ca cn ct cc' ctl :: post) b
+  | inWrapper {m : XmlMeta} {st st1 : ElState} {o1 : Out} {pre : List Tree} (post : List Tree)
+      {cq : QN} (ca : List (QN × Str)) (cn : NsMap) (ct ctl : Option Str) {cc cc' : List Tree}
+      (hpre : parseKids e Γ cfg m st none pre = .ok (o1, st1))
+      (hw : m.wrappers.any (·.1 = cq) = true)
+      {b : Bool} (hrec : InjectedKids e Γ cfg uq m st1 (some cq) cc cc' b) :
+      InjectedKids e Γ cfg uq m st none (pre ++ .node cq ca cn ct cc ctl :: post)
+        (pre ++ .node cq ca cn ct cc' ctl :: post) b
+
+
+/-! ### a small universe for the non-vacuity examples
+
+`R(a: str element, l: L element)`, `L(x: int element, i: int attribute)`,
+`W(w: Optional[object] wildcard ##any)`; single letter names keep the terms short. -/
+namespace Ex
+
+def exEnv : BEnv := ⟨Env.ascii, fun _ => true, fun _ => true⟩
+
+def baseVar : VarCore :=
+  { index := 1, name := ['a'], localName := ['a'], qname := ['a'], wrapperQName := none,
+    types := [.prim .str], clazz := none, init := true, mixed := false, tokens := false, format := none,
+    anyType := false, processContents := ['s','t','r','i','c','t'], required := false, nillable := false,
+    sequence := none, listElement := false, default := .none, namespaces := [], kind := .element,
+    isClazzUnion := false }
+
+def mkVar (v : VarCore) : XmlVar := { v with elements := [], wildcards := [] }
+
+def varA : XmlVar := mkVar baseVar
+def varLeaf : XmlVar :=
+  mkVar { baseVar with
+    index := 2, name := ['l'], localName := ['l'], qname := ['l'], types := [.cls ['L']], clazz := some ['L'] }
+def varX : XmlVar := mkVar { baseVar with name := ['x'], localName := ['x'], qname := ['x'], types := [.prim .int] }
+def varId : XmlVar :=
+  mkVar { baseVar with
+    index := 2, name := ['i'], localName := ['i'], qname := ['i'], types := [.prim .int], kind := .attribute }
+
+def metaRoot : XmlMeta :=
+  { clazz := ['R'], qname := ['R'], targetQName := some ['R'], nillable := false, text := none, choices := [],
+    elements := [(['a'], [varA]), (['l'], [varLeaf])], wildcards := [], attributes := [], anyAttributes := [],
+    wrappers := [] }
+def metaLeaf : XmlMeta :=
+  { clazz := ['L'], qname := ['L'], targetQName := some ['L'], nillable := false, text := none, choices := [],
+    elements := [(['x'], [varX])], wildcards := [], attributes := [(['i'], varId)], anyAttributes := [],
+    wrappers := [] }
+
+def exCtx : Ctx :=
+  { classes := [
+      { id := ['R'], metas := [(none, metaRoot)], mro := [['R']], bases := [],
+        fields := [⟨['a'], true, some .none⟩, ⟨['l'], true, some .none⟩] },
+      { id := ['L'], metas := [(none, metaLeaf)], mro := [['L']], bases := [],
+        fields := [⟨['x'], true, some .none⟩, ⟨['i'], true, some .none⟩] }],
+    xsiIndex := [(['R'], [['R']]), (['L'], [['L']])], datatypes := [] }
+
+def leafT (s : Str) : QN → Tree := fun q => .node q [] [] (some s) [] none
+def unk : Tree := .node ['z'] [(['k'], ['v'])] [] (some ['t']) [leafT ['n'] ['a'], leafT ['m'] ['y']] (some ['t','l'])
+def docKids : List Tree := [leafT ['h','i'] ['a'], .node ['l'] [(['i'], ['7'])] [] none [leafT ['5'] ['x']] none]
+def doc (ks : List Tree) : Tree := .node ['R'] [] [] none ks none
+
+
+def varW : XmlVar :=
+  mkVar { baseVar with
+    name := ['w'], localName := ['w'], qname := ['w'], types := [.obj], kind := .wildcard,
+    namespaces := ["##any".toList] }
+
+def metaW : XmlMeta :=
+  { clazz := ['W'], qname := ['W'], targetQName := some ['W'], nillable := false, text := none, choices := [],
+    elements := [], wildcards := [varW], attributes := [], anyAttributes := [], wrappers := [] }
+
+def ctxW : Ctx :=
+  { classes := [{ id := ['W'], metas := [(none, metaW)], mro := [['W']], bases := [],
+                  fields := [⟨['w'], true, some .none⟩] }],
+    xsiIndex := [(['W'], [['W']])], datatypes := [] }
+
+end Ex
+
 end Proofs.C10
